@@ -140,6 +140,7 @@ def run(ctx):
     import fam.vlogcheck  # noqa: F401 (registers odd_names)
     verilog_emitters(ctx)
     fam = designs.family(ctx.tier, ctx.seed) + [{'name': 'odd_names', 'params': {'w': 3}}] + \
+        [{'name': 'keyword_names', 'params': {'part': k_, 'parts': 4}} for k_ in range(4)] + \
         [d for d in designs.wide_family(ctx.tier) if d['params'].get('w', 0) in (1, 33, 65) or d['name'] != 'wide_ops']
     # designs exported once, then extended in the same block, then exported again
     fam += [{'name': 'extended_after_export', 'params': {'base': b, 'params': p}} for b, p in
